@@ -18,7 +18,7 @@ for p in props:
             'engine': 'vf',
             'level_claimed': {'category': c.get('level', 'proof'), 'text': c.get('level_text', ''), 'design_ref': c.get('design_ref', 'DESIGN.md section 4')},
             'level_note': c.get('level_note', ''),
-            'technique': c.get('technique', 'contract-based deductive verification (Verus function contracts on text extracted from /repo every run; Kani on scalar leaves)'),
+            'technique': c.get('technique', 'contract-based deductive verification: Verus function contracts / loop invariants / lemmas on function text sliced from /repo every run (Kani full-domain harnesses on scalar leaves; bounded native contract drivers, labelled bounded, only in the thorough tier)'),
         })
 nal = []
 for p in props:
